@@ -1,7 +1,7 @@
 /- Helper lemmas for KlogV/Props/GoPar.lean (the translated chunking computes the model's chunks). Core Lean only. -/
 import KlogV.Gen.GoPar
 import KlogV.Model.Parallel
-import KlogV.GoSem.Abs
+import KlogV.GoSem.AbsBase
 import KlogV.Lemmas.GoPar2
 namespace KlogV.GoL
 open KlogV.Go
